@@ -111,6 +111,22 @@ CLAIMED.update({
              technique='Coq proof by induction over string lists on a hand-written model; differential tie + rule-based search',
              ref='DESIGN.md section 4 C10'),
 })
+VSS_NOTE = ('Trusts Coq kernel + vm_compute, the hand-written model VssModel.v of Vss.c (typed 16/32/64-bit accesses through the generated byte-order helpers, header fields through the '
+            'generated accessor records), tied to the code by differential execution on exact-extent heap objects under ASan; VssSpec.v as transcription of acf-vss.md (reference encoder/decoder); '
+            'float/double objects are modelled as their bit patterns. Print Assumptions: closed under the global context.')
+CLAIMED.update({
+ 'C07': dict(text='Theorem C07_encode: for either address mode, every datatype shape (scalars, strings/byte arrays, arrays of 2/4/8-byte elements of ANY length whose byte size fits 16 bits - '
+                  'by induction over the element list -, packed string arrays), every path, every prior buffer and both byte orders, SetVssPath then SetVssData leave '
+                  'header ++ enc_path ++ enc_data ++ old tail, the reference encoding of VssSpec.v; C07_path / C07_data for the single steps; C07_reserved_mode / C07_reserved_datatype: '
+                  'reserved codes write nothing; C07_datatype_codes: the model\'s dispatch codes equal the regenerated enum values.',
+             note=VSS_NOTE, technique='Coq proof (induction over element lists) on a hand-written model of the encoder; differential tie + reference-encoder search',
+             ref='DESIGN.md section 4 C07'),
+ 'C08': dict(text='Theorems C08_path_size, C08_path, C08_data: on every well-formed message hdr ++ enc_path p ++ enc_data d ++ post (post arbitrary, in particular empty = exact extent) the modelled '
+                  'decoder returns exactly p and d (bit-exact, every element, any array length), the on-wire path size is |enc_path p|, a null destination yields only the byte length and '
+                  'writes nothing (C08_length_query), a destination of at least the reported size receives exactly the value; the outcome is Ok, i.e. no access outside the message or the destination.',
+             note=VSS_NOTE, technique='Coq proof (induction over element lists) on a hand-written model of the decoder; differential tie on reference-encoded messages',
+             ref='DESIGN.md section 4 C08'),
+})
 ALL = ['C%02d' % i for i in range(1, 21)]
 def main():
     checks = []
